@@ -58,7 +58,7 @@ fn main() {
         }
         "C15" => {
             let n = params.share(if th { 40_000 } else { 900 });
-            Drive { params: &params, stats: &mut stats, known: &known }.run("c15.limits", 15, c15::strategy(if th { 30 } else { 10 }), n, |c, s| c15::eval(&rig, c, s));
+            Drive { params: &params, stats: &mut stats, known: &known }.run("c15.limits", 15, c15::strategy(if th { 30 } else { 20 }), n, |c, s| c15::eval(&rig, c, s));
             (c15::RULE.into(), e2e_assumptions)
         }
         "C11" => {
